@@ -315,6 +315,33 @@ GLOBAL_RULES = [("R1", rule_R1), ("R2", rule_R2), ("R3", rule_R3), ("R4", rule_R
 LOOP_RE = re.compile(r"\b(while|for|loop)\b")
 
 
+_TOK = re.compile(r"\$[A-Za-z_]\w*|[A-Za-z_]\w*|\d[\w.]*|\"(?:\\.|[^\"\\])*\"|\S")
+
+
+def literal_to_regex(lit):
+    toks = _TOK.findall(lit)
+    seen, out, prev_word = set(), [], False
+    for k, t in enumerate(toks):
+        word = bool(re.match(r"[\w$]", t[0]))
+        if out:
+            out.append(r"\s+" if (word and prev_word) else r"\s*")
+        if t.startswith("$"):
+            name = t[1:]
+            if name in seen:
+                out.append("(?P=%s)" % name)
+            else:
+                seen.add(name)
+                out.append(r"(?P<%s>[A-Za-z_]\w*)" % name)
+        elif t == "," and k + 1 < len(toks) and toks[k + 1] in ")]}":
+            out.append(",?")
+        elif t in ")]}" and k > 0 and toks[k - 1] not in ",([{":
+            out.append(r",?\s*" + re.escape(t))
+        else:
+            out.append(re.escape(t))
+        prev_word = word
+    return "".join(out)
+
+
 def loops_in(mask, body_open, body_close):
     """[(kw_idx, open_brace_idx, close_brace_idx)] in source order for loops inside the fn body"""
     res = []
@@ -554,32 +581,17 @@ def process_block(blk, report, twin=None, defined=None):
             if cnt == 0:
                 raise LostAnchor('sig rewrite "%s" did not match in %s' % (frm, blk.name))
             text = text[:bo].replace(frm, to) + text[bo:]
-        elif re.search(r"\$[A-Za-z_]\w*", frm):
-            # wildcard form: `$name` stands for one identifier (same name = same identifier; usable in the replacement),
-            # any run of whitespace matches any run of whitespace - so that renamed locals / re-wrapped lines keep matching
-            seen, pat, pos = set(), "", 0
-            for mm in re.finditer(r"\$([A-Za-z_]\w*)|\s+", frm):
-                pat += re.escape(frm[pos:mm.start()])
-                if mm.group(1) is None:
-                    pat += r"\s+"
-                elif mm.group(1) in seen:
-                    pat += "(?P=%s)" % mm.group(1)
-                else:
-                    seen.add(mm.group(1))
-                    pat += r"(?P<%s>[A-Za-z_]\w*)" % mm.group(1)
-                pos = mm.end()
-            pat += re.escape(frm[pos:])
+        else:
+            # token-wise, formatting-insensitive match: white space between tokens is free, a trailing comma before a
+            # closing bracket may come and go (rustfmt), `$name` stands for one identifier (same name = same
+            # identifier; usable in the replacement)
+            pat, cnt = literal_to_regex(frm), 0
 
             def _sub(mo, to=to):
                 return re.sub(r"\$([A-Za-z_]\w*)", lambda g: mo.group(g.group(1)) if g.group(1) in mo.groupdict() else g.group(0), to)
             text, cnt = re.subn(pat, _sub, text)
             if cnt == 0 and kind == "rewrite":
                 raise LostAnchor('rewrite "%s" did not match in %s %s' % (frm, blk.kind, blk.name))
-        else:
-            cnt = text.count(frm)
-            if cnt == 0 and kind == "rewrite":
-                raise LostAnchor('rewrite "%s" did not match in %s %s' % (frm, blk.kind, blk.name))
-            text = text.replace(frm, to)
         if cnt:
             applied.append({"rule": "local", "from": frm, "to": to, "count": cnt})
 
